@@ -109,6 +109,24 @@ func main() {
 		}
 		return
 	}
+	if *dumpfn == "ERRDROP" {
+		w := loadWorld(*repo)
+		for _, fn := range w.RepoFuncs("compose", "schema", "internal", "flow", "callbacks", "components", "utils") {
+			for _, d := range errDroppedReturns(fn) {
+				fmt.Printf("%s | %s | return at %s | %s\n", w.fname(origin(fn)), calleeFullName(d.call), w.pos(d.ret.Pos()), d.why)
+			}
+		}
+		return
+	}
+	if *dumpfn == "RECVWRITES" {
+		w := loadWorld(*repo)
+		for _, fn := range w.RepoFuncs("schema", "internal", "flow", "callbacks", "components", "utils", "compose") {
+			for _, d := range receiverWrites(fn) {
+				fmt.Printf("%s | %s %s | %s\n", w.fname(origin(fn)), d.kind, d.field.Name(), w.pos(d.in.Pos()))
+			}
+		}
+		return
+	}
 	if *dumpfn == "LIST" {
 		w := loadWorld(*repo)
 		for _, f := range w.RepoFuncs() {
